@@ -13,7 +13,7 @@ ROOT = os.path.abspath(os.path.join(os.path.dirname(os.path.abspath(__file__)), 
 WORK = os.path.join(ROOT, "work", "e2")
 TARGET = os.path.join(ROOT, "target")
 E2_TARGET = os.path.join(TARGET, "e2")
-GENLIB = os.path.join(TARGET, "release", "cgorder")
+GENLIB = os.environ.get("VERIF_GENLIB") or os.path.join(TARGET, "release", "cgorder")
 PROBE_SRC = os.path.join(os.path.dirname(os.path.abspath(__file__)), "probe_src", "probe.rs")
 
 
